@@ -329,6 +329,37 @@ fn fixed_domain(l: Layout, tier: Tier) -> Dom {
     }
 }
 
+/// comparison partners *related* to one fixed value, which the product of the two alphabets cannot contain: for an
+/// integer type the floor of the value and its two neighbours; for a float type the float nearest to the value and
+/// the floats one and two units in the last place either side of it (equal, or apart by less than either operand's
+/// resolution, for irregular mid-range bit patterns as well)
+fn related_partners(l: Layout, a: u128, prim: usize) -> Vec<u128> {
+    let mut v = vec![];
+    if let Some(pl) = prim_layout(prim) {
+        let fl = l.z(a).shr_floor(l.frac);
+        let one = Z::from_u128(1);
+        for z in [fl.sub(one), fl, fl.add(one)] {
+            if pl.fits(&z) {
+                v.push(pl.wrap(&z));
+            }
+        }
+    } else if prim == 13 || prim == 14 {
+        let neg = l.is_neg(a);
+        let mag: u128 = if neg { a.wrapping_neg() & vcore::lay::mask(l.w) } else { a };
+        let bits: u128 = if prim == 13 { vcore::ieee::encode_f32(neg, mag, l.frac) as u128 } else { vcore::ieee::encode_f64(neg, mag, l.frac) as u128 };
+        let top: u128 = if prim == 13 { 0xffff_ffff } else { u64::MAX as u128 };
+        for d in [0u128, 1, 2] {
+            if bits + d <= top {
+                v.push(bits + d);
+            }
+            if d > 0 && bits >= d {
+                v.push(bits - d);
+            }
+        }
+    }
+    v
+}
+
 struct PrimDom {
     /// per prim: values used for conversions and for comparisons
     conv: Vec<Vec<u128>>,
@@ -489,7 +520,8 @@ fn run_layout(e: &Entry, pd: &PrimDom, prop: Prop, tier: Tier) -> JobOut {
         // comparisons
         if selects(prop, 10, prim) && prim != 12 {
             for &a in &fd.fixed_cmp {
-                for &b in &pd.cmp[prim] {
+                let rel = if l.w > 8 { related_partners(l, a, prim) } else { vec![] };
+                for &b in pd.cmp[prim].iter().chain(rel.iter()) {
                     rep.states += 1;
                     if a != 0 || b != 0 {
                         rep.nontrivial_states += 1;
@@ -754,7 +786,8 @@ fn cmd_dump(args: &Args) {
         }
         10 | 11 => {
             for &a in &fd.fixed_cmp {
-                for &b in &pd.cmp[prim] {
+                let rel = if l.w > 8 { related_partners(l, a, prim) } else { vec![] };
+                for &b in pd.cmp[prim].iter().chain(rel.iter()) {
                     emit(a, b);
                 }
             }
